@@ -208,6 +208,7 @@ pub fn run_lines(lines: &[String], oracles: bool) -> RunResult {
                 let news_before = sys.host.state.lock().unwrap().news.len();
                 let closes_before = sys.host.state.lock().unwrap().closes.len();
                 let recv = sys.recv.as_mut().expect("receiver alive");
+                let queries_before = sys.host.state.lock().unwrap().enabled_queries;
                 let res = dispatcher::with_default(&sys.dispatch, || {
                     catch_unwind(AssertUnwindSafe(|| recv.try_receive(real)))
                 });
@@ -285,6 +286,12 @@ pub fn run_lines(lines: &[String], oracles: bool) -> RunResult {
                         }
                         if !delta.is_empty() {
                             fail!("C07 rejected event `{}` still reached the host: {}", e.tok(), delta.join(" ; "));
+                        }
+                        let queries = sys.host.state.lock().unwrap().enabled_queries - queries_before;
+                        if queries > 0 {
+                            // `enabled()` is not a pure question for every subscriber (per-layer filters keep
+                            // the answer for the next span or event)
+                            fail!("C07 rejected event `{}` made the receiver call the host's enabled() {queries} time(s)", e.tok());
                         }
                         if !sys.spec.alive.is_empty() {
                             n_rejected_with_state += 1;
@@ -936,7 +943,7 @@ impl Suite for Receiver {
             "C06" => [0, 1, 1, 3][idx % 4],
             "C07" | "C08" => [0, 1, 7, 3, 7][idx % 5],
             "C04" => [0, 2, 2, 4][idx % 4],
-            "C02" => [0, 5, 5][idx % 3],
+            "C02" => [0, 5, 5, 3][idx % 4],
             "C03" => [0, 3, 3][idx % 3],
             "C13" => 8,
             _ => idx % 6,
